@@ -685,11 +685,15 @@ ares_status_t ares_sysconfig_parse_resolv_line(const ares_channel_t *channel,
     size_t           nsort    = 0;
 
     status = ares_parse_sortlist(&sortlist, &nsort, value);
-    if (status == ARES_SUCCESS) {
-      /* Only a sortlist that parsed replaces an earlier one */
+    if (status == ARES_SUCCESS && nsort > 0) {
+      /* Only a sortlist that parsed, and that names at least one network,
+       * replaces an earlier one */
       ares_free(sysconfig->sortlist);
       sysconfig->sortlist  = sortlist;
       sysconfig->nsortlist = nsort;
+    } else if (status == ARES_SUCCESS) {
+      /* Nothing but separators, ignore the line */
+      ares_free(sortlist);
     } else if (status != ARES_ENOMEM) {
       status = ARES_SUCCESS;
     }
